@@ -108,9 +108,18 @@ func main() {
 			bad = append(bad, fmt.Sprintf("UNGATED acquisition of %s in %s at %s (held shared %v excl %v)", ar.LockName, ar.Func, ar.Pos[0], lockNames(res, ar.HeldShared), lockNames(res, ar.HeldExcl)))
 		}
 	}
+	for _, co := range res.ChanOps {
+		if !co.Justified {
+			bad = append(bad, fmt.Sprintf("BLOCKING CHANNEL OP UNDER LOCK: %s on %s in %s at %s (locks possibly held %v): %s", co.Op, co.Chan, co.Func, co.Pos[0], lockNames(res, co.Held), co.Why))
+		}
+	}
 	for _, e := range res.Edges {
 		if res.Locks[e.From].Rank >= res.Locks[e.To].Rank {
-			bad = append(bad, fmt.Sprintf("LOCK-ORDER CYCLE edge %s -> %s at %s", res.Locks[e.From].Name, res.Locks[e.To].Name, e.Pos[0]))
+			what := fmt.Sprintf("LOCK-ORDER CYCLE edge %s -> %s at %s", res.Locks[e.From].Name, res.Locks[e.To].Name, e.Pos[0])
+			for _, in := range e.Unlisted {
+				what += fmt.Sprintf(" [NEW chain, not one of the listed findings: %s holds it and %s acquires it, %s]", in.Holder, in.Acquirer, in.Pos)
+			}
+			bad = append(bad, what)
 		}
 	}
 	if len(bad) > 6 {
@@ -159,7 +168,18 @@ type rowOut struct {
 	Paths      []string `json:"paths"`
 }
 
+type edgeInstOut struct {
+	Holder   string `json:"holder"`
+	Acquirer string `json:"acquirer"`
+	Pos      string `json:"pos"`
+}
+
 type edgeOut struct {
+	// Instances: (function holding `from`, function acquiring `to`) pairs.
+	Instances []edgeInstOut `json:"instances"`
+	// Unlisted: instances of an edge with a known finding that the finding
+	// does not list (they make the edge an ordinary, rank-checked one).
+	Unlisted []edgeInstOut `json:"unlisted_instances,omitempty"`
 	From int      `json:"from"`
 	To   int      `json:"to"`
 	Pos  []string `json:"pos"`
@@ -189,6 +209,22 @@ type acqOut struct {
 	Pos        []string `json:"pos"`
 }
 
+type chanOpOut struct {
+	Site          int      `json:"site"`
+	Func          string   `json:"func"`
+	Chan          string   `json:"chan"`
+	ChanID        int      `json:"chan_id"`
+	Op            string   `json:"op"`
+	Cap           int      `json:"capacity"` // -1 not a single constant, -2 unknown
+	Held          []int    `json:"locks_possibly_held"`
+	DrainedUnder  []string `json:"drained_before_under,omitempty"`
+	Justification string   `json:"justification,omitempty"`
+	Justified     bool     `json:"justified"`
+	Why           string   `json:"why_not,omitempty"`
+	Pos           []string `json:"pos"`
+	drainedAll    bool
+}
+
 type exemptOut struct {
 	Field  string `json:"field"`
 	Reason string `json:"reason"`
@@ -214,6 +250,8 @@ type summary struct {
 	FreshSkipped       int `json:"accesses_on_fresh_objects"`
 	InitSkipped        int `json:"accesses_in_init_functions"`
 	AddrTaken          int `json:"address_taken_sites_not_followed"`
+	ChanOpsUnderLock   int `json:"channel_ops_under_lock"`
+	UnjustifiedChanOps int `json:"unjustified_channel_ops_under_lock"`
 	GatedAcqRows       int `json:"gated_acquisition_rows"`
 	UngatedAcqs        int `json:"acquisitions_without_gate"`
 	KnownUngatedAcqs   int `json:"known_acquisitions_without_gate"`
@@ -229,6 +267,10 @@ type result struct {
 	Edges      []edgeOut         `json:"edges"`
 	KnownEdges []edgeOut         `json:"known_edges"`
 	Gates      []gateOut         `json:"gates"`
+	// ChanOps: potentially blocking channel operations made while a lock is
+	// (possibly) held; channels are not part of the lock machine, every such
+	// site must be justified in the reviewed table.
+	ChanOps []chanOpOut `json:"channel_ops_under_lock"`
 	Acqs       []acqOut          `json:"gated_acquisitions"`
 	// ExemptAcqs: acquisitions of a gated lock made with the gate held
 	// exclusively; they cannot block and contribute no lock-order edge.
@@ -332,6 +374,14 @@ func renderLean(r *result) string {
 		}
 		fmt.Fprintf(&b, "  ⟨%d, %d, %s, %s, %v, %s⟩%s  -- %s %s\n", a.Site, a.Lock, intsLean(a.HeldShared), intsLean(a.HeldExcl), a.Leaf, kn, sep, a.Func, a.Pos[0])
 	}
+	b.WriteString("]\n\n/-- potentially blocking channel operations under a lock: site, channel, is a send, locks possibly held, justified -/\ndef chanOps : List ChanOpRow := [\n")
+	for i, co := range r.ChanOps {
+		sep := ","
+		if i == len(r.ChanOps)-1 {
+			sep = ""
+		}
+		fmt.Fprintf(&b, "  ⟨%d, %d, %v, %s, %v⟩%s  -- %s %s %s %s %s\n", co.Site, co.ChanID, co.Op == "send", intsLean(co.Held), co.Justified, sep, co.Func, co.Op, co.Chan, co.Justification, co.Pos[0])
+	}
 	b.WriteString("]\n\n/-- a cycle of `edges ++ knownEdges` through a known edge (empty if there is none) -/\n")
 	fmt.Fprintf(&b, "def knownCycle : List Nat := %s\n", intsLean(r.KnownCycle))
 	b.WriteString("\nend AGH.Gen.C05\n")
@@ -357,8 +407,15 @@ func printReport(r *result) {
 	fmt.Println("== known bad edges")
 	for _, e := range r.KnownEdges {
 		fmt.Printf("  %s -> %s  [%s] %s\n", r.Locks[e.From].Name, r.Locks[e.To].Name, e.Known, strings.Join(e.Pos, " "))
+		for _, in := range e.Instances {
+			fmt.Printf("      instance: holder %s, acquirer %s (%s)\n", in.Holder, in.Acquirer, in.Pos)
+		}
 	}
 	fmt.Println("== stale known entries:", r.StaleKnown)
+	fmt.Println("== channel ops under lock")
+	for _, co := range r.ChanOps {
+		fmt.Printf("  %s %s %s cap=%d held=%v drained_under=%v justified=%v (%s) %s %s\n", co.Func, co.Op, co.Chan, co.Cap, lockNames(r, co.Held), co.DrainedUnder, co.Justified, co.Justification, co.Why, strings.Join(co.Pos, " "))
+	}
 	fmt.Println("== gated acquisitions")
 	for _, a := range r.Acqs {
 		fmt.Printf("  %s %s shared=%v excl=%v leaf=%v ok=%v known=%q %s\n", a.Func, a.LockName, lockNames(r, a.HeldShared), lockNames(r, a.HeldExcl), a.Leaf, a.OK, a.Known, strings.Join(a.Pos, " "))
